@@ -153,6 +153,13 @@ pub fn run_prop(spec: &PropSpec, cases: u32, seed: u64, replay_dir: &str) -> Sum
 
     if let Err(TestError::Fail(_, tape)) = result {
         let case = gen_case(&tape, &spec.profile);
+        let rule = run_one(spec, &case).ok().and_then(|o| o.violations.first().map(|v| v.rule.clone()));
+        let case = match &rule {
+            Some(rule) => minimize_case(&case, &|c: &Case| {
+                run_one(spec, c).map(|o| o.violations.iter().any(|v| &v.rule == rule)).unwrap_or(false)
+            }),
+            None => case,
+        };
         match run_one(spec, &case) {
             Ok(out) => {
                 sum.violations = out.violations.clone();
@@ -177,4 +184,121 @@ pub fn run_prop(spec: &PropSpec, cases: u32, seed: u64, replay_dir: &str) -> Sum
     }
     sum.wall_s = t0.elapsed().as_secs_f64();
     sum
+}
+
+// ---------------------------------------------------------------------------------------------
+// case-level minimiser (after proptest's tape shrinking): delete history steps and body ops
+// while the same rule keeps failing. The result is what the replay file stores.
+// ---------------------------------------------------------------------------------------------
+
+fn op_variants(ops: &[Op]) -> Vec<Vec<Op>> {
+    let mut out = vec![];
+    for i in 0..ops.len() {
+        // delete op i
+        let mut v = ops.to_vec();
+        v.remove(i);
+        out.push(v);
+        if let Op::If { slot, field, thr, then, els } = &ops[i] {
+            // replace by a branch
+            for br in [then, els] {
+                let mut v = ops.to_vec();
+                v.splice(i..=i, br.iter().cloned());
+                out.push(v);
+            }
+            for t in op_variants(then) {
+                let mut v = ops.to_vec();
+                v[i] = Op::If { slot: *slot, field: *field, thr: *thr, then: t, els: els.clone() };
+                out.push(v);
+            }
+            for e in op_variants(els) {
+                let mut v = ops.to_vec();
+                v[i] = Op::If { slot: *slot, field: *field, thr: *thr, then: then.clone(), els: e };
+                out.push(v);
+            }
+        }
+    }
+    out
+}
+
+pub fn minimize_case(case: &Case, fails: &dyn Fn(&Case) -> bool) -> Case {
+    let mut cur = case.clone();
+    let mut budget = 3000;
+    loop {
+        let mut changed = false;
+        // history steps, from the end
+        let mut i = cur.hist.len();
+        while i > 0 && budget > 0 {
+            i -= 1;
+            let mut c = cur.clone();
+            c.hist.remove(i);
+            budget -= 1;
+            if fails(&c) {
+                cur = c;
+                changed = true;
+            }
+        }
+        // bodies
+        let nbodies = cur.prog.nodes.len() + 3;
+        for b in 0..nbodies {
+            loop {
+                let body: &Vec<Op> = match b {
+                    x if x < cur.prog.nodes.len() => &cur.prog.nodes[x].body,
+                    x if x == cur.prog.nodes.len() => &cur.prog.on_ent,
+                    x if x == cur.prog.nodes.len() + 1 => &cur.prog.on_ent_spec,
+                    _ => &cur.prog.on_sym,
+                };
+                let mut found = false;
+                for v in op_variants(body) {
+                    if budget == 0 {
+                        break;
+                    }
+                    budget -= 1;
+                    let mut c = cur.clone();
+                    match b {
+                        x if x < c.prog.nodes.len() => c.prog.nodes[x].body = v,
+                        x if x == c.prog.nodes.len() => c.prog.on_ent = v,
+                        x if x == c.prog.nodes.len() + 1 => c.prog.on_ent_spec = v,
+                        _ => c.prog.on_sym = v,
+                    }
+                    if fails(&c) {
+                        cur = c;
+                        found = true;
+                        changed = true;
+                        break;
+                    }
+                }
+                if !found {
+                    break;
+                }
+            }
+        }
+        // node kinds -> Plain, ret_h -> false
+        for n in 0..cur.prog.nodes.len() {
+            if budget == 0 {
+                break;
+            }
+            if cur.prog.nodes[n].kind != Kind::Plain && !cur.prog.lattice {
+                let mut c = cur.clone();
+                c.prog.nodes[n].kind = Kind::Plain;
+                budget -= 1;
+                if fails(&c) {
+                    cur = c;
+                    changed = true;
+                }
+            }
+            if cur.prog.nodes[n].ret_h {
+                let mut c = cur.clone();
+                c.prog.nodes[n].ret_h = false;
+                budget -= 1;
+                if fails(&c) {
+                    cur = c;
+                    changed = true;
+                }
+            }
+        }
+        if !changed || budget == 0 {
+            break;
+        }
+    }
+    cur
 }
